@@ -46,6 +46,7 @@ NEAR = {
 }
 PLAIN = ["1", "2.5", "-3.75", "100", "0.125", "45.5", "1.5E2", "-7"]
 TEXTS = ["abc", "LIME", "x-1", "n/a", "SAND"]
+NANLIT = ["NaN", "nan", "NAN"]
 
 
 class C06(Prop):
@@ -71,6 +72,7 @@ class C06(Prop):
         nc, nr = g.randint(2, 5), g.randint(1, 8)
         textcol = g.randint(1, nc - 1) if g.random() < 0.2 else None
         rows = []
+        nanlit = g.random() < 0.25
         for i in range(nr):
             row = []
             for j in range(nc):
@@ -83,10 +85,13 @@ class C06(Prop):
                     row.append(g.choice(NULLS[nk]))
                 elif q < 0.5:
                     row.append(g.choice(NEAR[nk]))
+                elif q < 0.53 and nanlit:
+                    row.append(g.choice(NANLIT))          # a sample that is not-a-number to begin with
                 else:
                     row.append(g.choice(PLAIN))
             rows.append(row)
         return {"undeclared": g.choice([0, 0, 0, 1, 2]) if nc >= 3 else 0, "touch_then_nan": g.random() < 0.25,
+                "retype": g.choice([None, None, None, None, "float32", "float32", "float16"]),
                 "null_key": nk, "null_spelling": g.choice(NULLS[nk]), "rows": rows, "textcol": textcol,
                 "wrap": g.random() < 0.2 and nc >= 3, "policy_null": g.choice(["strict", "strict", "none"]),
                 "nkw": neutral_read_kw(g, exclude=("null_policy",)), "engine": g.choice(["numpy", "normal"]), "vers": g.choice([1.2, 2.0]), "case": g.choice(["upper", "upper", "lower", "preserve"]),
@@ -144,6 +149,13 @@ class C06(Prop):
                         res.violate("C06.dtype", "numeric column %d came back with dtype %s" % (j, a.dtype))
                         return res
                     v = float(cell)
+                    if math.isnan(v):
+                        # not-a-number as written: stays NaN under every policy, and says nothing about its neighbours
+                        if not math.isnan(float(a[i])):
+                            res.violate("C06.changed", "cell %r at (row %d, curve %d) came back as %r" % (cell, i, j, float(a[i])))
+                            return res
+                        res.count("literal-nan-cells")
+                        continue
                     is_null = (v == nullv)
                     want_nan = is_null and j != 0 and sc["policy_null"] == "strict"
                     if is_null and j != 0:
@@ -168,6 +180,11 @@ class C06(Prop):
             res.nontrivial = n_null_nonindex > 0 and n_other > 0
             # write half: NaN -> current NULL, same NaN set after write -> read
             fmtw = sc["wkw"].get("fmt", "%.5f")
+            if sc.get("retype") and sc["textcol"] is None:
+                # the caller keeps the table in another floating type (every curve, so the stacked table has it too)
+                for c in curves:
+                    c.data = np.asarray(c.data).astype(sc["retype"])
+                res.count("retyped:" + sc["retype"])
             rounds_to_null = any(
                 (not math.isnan(float(x))) and float(fmtw % float(x)) == nullv
                 for j in range(1, nc) if j != sc["textcol"] for x in np.asarray(curves[j].data).tolist())
@@ -206,6 +223,23 @@ class C06(Prop):
                     res.violate("C06.write-cycle", "NaN positions %r became %r after write(%r) -> read (NULL %r)" % (
                         nan_before[:6], nan_after[:6], sc["wkw"], sc["null_spelling"]))
                     return res
+                # "every NaN is emitted as the current NULL value": read the same text without any NULL handling
+                try:
+                    raw = read_via(fs, out, {"channel": "stringio", "codec": "utf-8", "explicit": False, "newline": "\n"},
+                                   {"engine": sc["engine"], "null_policy": "none"}, tag="c06")
+                    cur_null = float(las.well["NULL"].value)
+                    rc = list(raw.curves)
+                    for (i, j) in nan_before:
+                        if j == 0:
+                            continue
+                        got = float(np.asarray(rc[j].data)[i])
+                        if not (got == cur_null):
+                            res.violate("C06.write-null", "NaN at (row %d, curve %d) was written as %r, not as the NULL value %r (write %r, dtype %s)" % (
+                                i, j, got, cur_null, sc["wkw"], np.asarray(curves[j].data).dtype))
+                            return res
+                    res.count("written-null-checked", len(nan_before))
+                except (KeyError, IndexError, ValueError, TypeError) as e:
+                    res.count("written-null-check-skipped:" + type(e).__name__)
         res.events = fs.seq
         res.merge_counts(fs.counts)
         return res
